@@ -311,7 +311,7 @@ structure Cfg where
   entrySize : Nat
   bufferSize : Nat
   totalMemory : Nat
-  deriving Repr
+  deriving Repr, DecidableEq
 
 /-- The `for (buf …)` loop (sort.hh:274-280): how many runs of the given byte sizes are pushed
 into one queue.  `used` = `buf - buffer.get()`. -/
